@@ -22,6 +22,8 @@ import (
 	goat "github.com/avos-io/goat"
 	"github.com/avos-io/goat/gen/goatorepo"
 	"github.com/avos-io/goat/internal/verifhook"
+	"google.golang.org/grpc"
+	"google.golang.org/protobuf/types/known/wrapperspb"
 )
 
 func proxyE2ECount() int {
@@ -363,3 +365,141 @@ func runProxyFree(t *testing.T, idx, variant int, em *Emitter) {
 
 var _ = strings.TrimPrefix
 var _ = rand.Int
+
+// ---------------------------------------------------------------- resets through the proxy
+
+// e2eResetProbe runs, on a direct connection (viaProxy false) or through a real Proxy (+ Demux keyed by source),
+//   - a bidi stream that the caller cancels after one round trip: what the handler saw (1 its context was
+//     cancelled, 2 a clean end of the request stream, 3 another error, 9 it is still waiting) and what the caller's
+//     RecvMsg then returned;
+//   - a raw peer sending a message body for a stream the server does not know: what comes back (1 an envelope with the
+//     reset marker RST_STREAM, 2 a bare trailer, 3 something else, 0 nothing), and the same for a stream method with
+//     undecodable request metadata.
+// The outcomes through the proxy must equal the direct ones.
+func e2eResetProbe(t *testing.T, viaProxy bool, variant int) []int64 {
+	var out []int64
+	bubble(t, func(t *testing.T) {
+		ctx, cancel := context.WithCancel(context.Background())
+		var mu sync.Mutex
+		handler := int64(9)
+		impl := e2eEcho()
+		inner := impl.stream
+		impl.stream = func(kind string, s grpc.ServerStream) error {
+			if kind != "Bidi" {
+				return inner(kind, s)
+			}
+			var m wrapperspb.BytesValue
+			if err := s.RecvMsg(&m); err != nil {
+				return err
+			}
+			if err := s.SendMsg(&wrapperspb.BytesValue{Value: m.Value}); err != nil {
+				return err
+			}
+			err := s.RecvMsg(&m) // waits for the next message: the caller cancels instead
+			mu.Lock()
+			switch {
+			case s.Context().Err() != nil:
+				handler = 1
+			case err == io.EOF:
+				handler = 2
+			case err != nil:
+				handler = 3
+			default:
+				handler = 4
+			}
+			mu.Unlock()
+			return err
+		}
+		srv := newEchoServer("srv1", impl)
+		var eps []*Endpoint
+		var demux *goat.Demux
+		clientLink := NewLink(variant%2 == 1)
+		clientLink.Auto = true
+		raw := NewEndpoint("c9")
+		eps = append(eps, clientLink.C, clientLink.S, raw)
+		if viaProxy {
+			srvLink := NewLink(variant%2 == 1)
+			srvLink.Auto = true
+			eps = append(eps, srvLink.C, srvLink.S)
+			demux = goat.NewDemux(ctx, srvLink.S, func(r *Rpc) string { return r.GetHeader().GetSource() },
+				func(c goat.RpcReadWriter) { go srv.Serve(ctx, c) })
+			go demux.Run()
+			p := goat.NewProxy(ctx, "px", func(string) (goat.RpcReadWriter, error) { return nil, errInjected }, nil, nil)
+			go p.Serve()
+			p.AddClient("srv1", srvLink.C)
+			p.AddClient("c1", clientLink.S)
+			p.AddClient("c9", raw)
+		} else {
+			go srv.Serve(ctx, clientLink.S)
+			go srv.Serve(ctx, raw)
+		}
+		// (a) caller cancels a stream
+		cc := goat.NewClientConn(clientLink.C, "c1", "srv1")
+		cctx, ccancel := context.WithCancel(context.Background())
+		cs, err := cc.NewStream(cctx, descBidi, "/verif.Echo/Bidi")
+		if err != nil {
+			out = append(out, errTok(err))
+		} else {
+			out = append(out, errTok(cs.SendMsg(bv(payloadOf(41)))))
+			var m wrapperspb.BytesValue
+			if err := cs.RecvMsg(&m); err != nil {
+				out = append(out, errTok(err))
+			} else {
+				out = append(out, tokenOf(m.Value))
+			}
+			ccancel()
+			synctest.Wait()
+			out = append(out, errTok(cs.RecvMsg(&m)))
+		}
+		synctest.Wait()
+		mu.Lock()
+		out = append(out, handler)
+		mu.Unlock()
+		ccancel()
+		// (b) a body for an unknown stream, and a stream start with undecodable metadata, from a raw peer
+		classify := func(from int) int64 {
+			ws := raw.WrittenCopy()
+			if len(ws) <= from {
+				return 0
+			}
+			w := ws[len(ws)-1]
+			switch {
+			case w.GetReset_() != nil && w.GetReset_().GetType() == "RST_STREAM":
+				return 1
+			case w.GetTrailer() != nil && w.GetReset_() == nil:
+				return 2
+			}
+			return 3
+		}
+		n0 := len(raw.WrittenCopy())
+		raw.Deliver(&Rpc{Id: 777, Header: hdr("/verif.Echo/Bidi", "c9", "srv1"), Body: &goatorepo.Body{Data: payloadOf(42)}})
+		synctest.Wait()
+		out = append(out, classify(n0), int64(len(raw.WrittenCopy())-n0))
+		n1 := len(raw.WrittenCopy())
+		h := hdr("/verif.Echo/CStream", "c9", "srv1")
+		h.Headers = []*goatorepo.KeyValue{{Key: "x-bin", Value: "!!!"}}
+		raw.Deliver(&Rpc{Id: 778, Header: h})
+		synctest.Wait()
+		out = append(out, classify(n1), int64(len(raw.WrittenCopy())-n1))
+		cancel()
+		srv.Stop()
+		if demux != nil {
+			demux.Stop()
+		}
+		for _, e := range eps {
+			e.FailRead(io.EOF)
+		}
+		synctest.Wait()
+	})
+	return out
+}
+
+func runProxyResetE2E(t *testing.T, idx, variant int, em *Emitter) {
+	em.Marker("begin", idx)
+	exp := [][]int64{e2eResetProbe(t, false, variant)}
+	got := [][]int64{e2eResetProbe(t, true, variant)}
+	term, n := pairsCoq(exp, got)
+	em.Emit(Rec{Idx: idx, Kind: "proxy-e2e", Desc: map[string]any{"what": "resets through the proxy", "variant": variant, "outcomes": n},
+		Obs: map[string]any{"expected": exp, "observed": got}, Tags: []string{"e2e-proxy", "e2e-resets"}, Coq: "CProxyE2E " + term})
+	em.Marker("end", idx)
+}
